@@ -1,10 +1,10 @@
 """C19 plan (see lib/plan.py for the format)."""
-from plan import R, D, stages
+from plan import R, D, T, stages
 
 PLAN = dict(
     **stages(
-        quick=[(R, "quick", 16), (D, "small", 16)],
-        thorough=[(R, "thorough", 16), (D, "quick", 16)],
+        quick=[(R, "quick", 16), (D, "small", 16), (T, "small", 16)],
+        thorough=[(R, "thorough", 16), (D, "quick", 16), (T, "quick", 16)],
     ),
     rule=("cases are path strings: an exhaustive sweep over every sequence of <= 6 segments from "
           "{'..', '.', 'a', 'b-1', ''} with and without a leading '/', joined by '/' or by '//' (78 124 strings), "
